@@ -15,8 +15,8 @@ import (
 // Verification hooks for the pipeline-termination property (build tag verif): thin exports
 // of the Grouping stage constructors and helpers, no logic of their own.
 
-func VerifPipesMergeErrors(sessionID string, cs ...chan error) chan error {
-	return mergeErrors(log.New("module", "dkg"), sessionID, cs...)
+func VerifPipesMergeErrors(ctx context.Context, sessionID string, cs ...chan error) chan error {
+	return mergeErrors(ctx, log.New("module", "dkg"), sessionID, cs...)
 }
 
 func VerifPipesFanOut(ctx context.Context, ch chan interface{}, size int) []chan interface{} {
